@@ -294,12 +294,12 @@ namespace ratio
             if (auto a0_it = sv.leqs.find(as[0]); a0_it != sv.leqs.cend())
                 if (auto a0_a1_it = a0_it->second.find(as[1]); a0_a1_it != a0_it->second.cend())
                     if (get_solver().get_sat_core().value(a0_a1_it->second) != False)
-                        add_resolver(*new order_resolver(*this, a0_a1_it->second, *as[0], *as[1]));
+                        add_resolver(*new order_resolver(*this, a0_a1_it->second, *as[0], *as[1]), false);
 
             if (auto a1_it = sv.leqs.find(as[1]); a1_it != sv.leqs.cend())
                 if (auto a1_a0_it = a1_it->second.find(as[0]); a1_a0_it != a1_it->second.cend())
                     if (get_solver().get_sat_core().value(a1_a0_it->second) != False)
-                        add_resolver(*new order_resolver(*this, a1_a0_it->second, *as[1], *as[0]));
+                        add_resolver(*new order_resolver(*this, a1_a0_it->second, *as[1], *as[0]), false);
 
             expr a0_tau = as[0]->get(TAU);
             expr a1_tau = as[1]->get(TAU);
@@ -312,7 +312,7 @@ namespace ratio
             else if (auto a0_a1_it = sv.plcs.find({as[0], as[1]}); a0_a1_it != sv.plcs.cend())
                 for (const auto &a0_a1_disp : a0_a1_it->second)
                     if (get_solver().get_sat_core().value(a0_a1_disp.first) != False)
-                        add_resolver(*new place_resolver(*this, a0_a1_disp.first, *as[0], *a0_a1_disp.second, *as[1]));
+                        add_resolver(*new place_resolver(*this, a0_a1_disp.first, *as[0], *a0_a1_disp.second, *as[1]), false);
         }
     }
 
